@@ -126,6 +126,31 @@ def observe(base, resp, stack):
             'vary_ae': 'accept-encoding' in h.get('vary', '').lower(), 'has_gzip': 'gzip' in stack}
 
 
+def leg_aged_stats(run, base, recs, tid, nreq):
+    """Transparent is a per-request statement and therefore holds at every point of a middleware's life: a stats
+    middleware whose reservoirs are FULL (shrunk to 2 samples through Reservoir.resize, its public API, so that "full" is
+    reached after 2 hits instead of 16384) must still hand every response through unchanged."""
+    import random as _random
+    _random.seed(run.seed * 7 + 1)
+    app = build(['stats'])
+    smw = app.middlewares[0]
+    scens = ['ok200', 'raise404', 'ctx', 'ret418']
+    for s in scens:
+        for _ in range(2):
+            request(app, s, 'absent')
+    for per_route in list(smw.route_hits.values()):
+        for res in list(per_route.values()):
+            res.resize(2)
+    for i in range(nreq):
+        s = scens[i % len(scens)]
+        resp = request(app, s, 'gzip' if i % 3 == 0 else 'absent')
+        a = 'gzip' if i % 3 == 0 else 'absent'
+        tid += 1
+        recs.append({'tid': tid, 'ae': a, 'o': observe(base[(s, a)], resp, ['stats']), '_stack': ['stats'], '_scen': s,
+                     '_escaped': resp.get('escaped'), '_aged': i})
+    return tid
+
+
 def check(run):
     quick = run.tier == 'quick'
     B = spec('BuiltinMw.tla')
@@ -161,6 +186,7 @@ def check(run):
                 tid += 1
                 o = observe(base[(s, a)], resp, st)
                 recs.append({'tid': tid, 'ae': a, 'o': o, '_stack': st, '_scen': s, '_escaped': resp.get('escaped')})
+    tid = leg_aged_stats(run, base, recs, tid, 150 if quick else 3000)
     acc, rej = tracecheck.validate(run, 'BuiltinMw_Trace', spec('BuiltinMw_Trace.tla'), cfgpath('BuiltinMw_Trace.cfg'), None,
                                    [{k: v for k, v in r_.items() if not k.startswith('_')} for r_ in recs])
     run.traces += len(acc)
@@ -175,6 +201,8 @@ def check(run):
         if r_['tid'] in rej:
             o = r_['o']
             culprit = r_['_stack'][0] if len(r_['_stack']) == 1 else 'stack'
+            if '_aged' in r_:
+                culprit = 'stats-with-full-reservoirs'
             if o['status'] != o['base_status']:
                 sig = 'status-changed:%s->%s:%s:%s' % (o['base_status'], o['status'], r_['_scen'], culprit)
             elif not o['decoded_same']:
@@ -189,6 +217,17 @@ def replay(run, path):
     with open(path) as f:
         rp = json.load(f)
     r_ = rp['case']['record']
+    if '_aged' in r_:
+        class R(object):
+            seed = rp.get('seed', 1)
+        recs = []
+        base_app = build([])
+        base = dict(((s, a), request(base_app, s, a)) for s in SCENARIOS for a in ('absent', 'gzip'))
+        leg_aged_stats(R(), base, recs, 0, 3000)
+        bad = [x for x in recs if x['o']['status'] != x['o']['base_status'] or not x['o']['decoded_same']]
+        for x in bad[:3]:
+            print('still violates: aged stats request #%d %s: %r' % (x['_aged'], x['_scen'], x['o']))
+        return 1 if bad else 0
     base = request(build([]), r_['_scen'], r_['ae'])
     resp = request(build(r_['_stack']), r_['_scen'], r_['ae'])
     o = observe(base, resp, r_['_stack'])
